@@ -69,7 +69,7 @@ typedef struct interactive_s {
     int out_of_band;            /* Send a telnet sync operation            */
     int state;                  /* Current telnet state.  Bingly wop       */
     int sb_pos;                 /* Telnet suboption negotiation stuff      */
-    BYTE sb_buf[SB_SIZE];
+    BYTE sb_buf[SB_SIZE + 1];   /* SB_SIZE data bytes + the terminator written at IAC SE */
 } interactive_t;
 
 
